@@ -895,8 +895,17 @@ fn corpus() -> Vec<Case> {
         // numeric boundaries: Float and ID take any integer literal, Int only 32-bit values (spec 3.5.1 / 3.5.2 / 3.5.5)
         c("big-integers-for-float-and-id", "query Q { f(n: 2147483647, fl: 3000000000, id: 1099511627776, l: [-2147483648, 0, -0], ll: -1) }", vec![]),
         c("big-integers-in-variable-defaults", "query Q($i: ID = 4294967296, $f: Float = 9007199254740993, $n: Int! = -2147483648) { f(n: $n, id: $i, fl: $f, x: {a: 2147483647}) a2: f(n: 0, fl: 1e400, id: 12345678901234567890) }", vec![]),
-        // OPEN finding (known-findings.txt): an integer literal beyond 32 bits is accepted where Int is expected
-        c("int-literal-outside-32-bit-range", "query Q { f(n: 4294967296) }", lbl("5.6.1-int32", "int-position", "int-literal-outside-32-bit-range")),
+        // fixed e3584a3 (was the open finding 5.6.1-int32:int-position): an integer literal beyond 32 bits where Int is
+        // expected is an ordinary 5.6.1 fault — argument, list item, single value for a list, input field, directive
+        // argument (schema of the corpus has none of type Int: covered by the generated family), variable default
+        c("int-literal-outside-32-bit-range", "query Q { f(n: 4294967296) }", lbl("5.6.1", "field-arg/int32", "int-literal-outside-32-bit-range")),
+        c("int-literal-just-above-i32-max", "query Q { f(n: 2147483648) }", lbl("5.6.1", "field-arg/int32", "int-literal-outside-32-bit-range")),
+        c("int-literal-just-below-i32-min", "query Q { f(n: -2147483649) }", lbl("5.6.1", "field-arg/int32", "int-literal-outside-32-bit-range")),
+        c("int-literal-outside-32-bit-range-in-list", "query Q { f(n: 1, l: [1, 3000000000, 2]) }", lbl("5.6.1", "field-arg/list-item/int32", "int-literal-outside-32-bit-range")),
+        c("int-literal-outside-32-bit-range-single-value-for-list", "query Q { f(n: 1, ll: 12345678901234567890) }", lbl("5.6.1", "field-arg/single-for-list/int32", "int-literal-outside-32-bit-range")),
+        c("int-literal-outside-32-bit-range-in-input-field", "query Q { f(n: 1, x: {a: -9223372036854775809}) }", lbl("5.6.1", "field-arg/input-field/int32", "int-literal-outside-32-bit-range")),
+        c("int-literal-outside-32-bit-range-in-variable-default", "query Q($v: Int = 9007199254740992) { f(n: 1, l: [$v]) }", lbl("5.6.1", "var-default/int32", "int-literal-outside-32-bit-range")),
+        c("int-literals-at-the-32-bit-boundaries", "query Q($v: Int = -2147483648) { f(n: 2147483647, l: [$v, -0, 2147483647], x: {a: -2147483648, r: 0}) }", vec![]),
         c("anonymous-op-and-fragment-named-query", "{ a { ...query } } fragment query on A { x }", vec![]),
     ]
     .into_iter()
@@ -1160,7 +1169,8 @@ pub fn run(prop: &str) {
             let n_mut = if prop == "C03" { args.budget(6, 10) } else { 2 };
             let sites = mutate::collect_sites(&sch, &doc);
             if prop == "C03" && rng.chance(1, 3) {
-                // an integer literal beyond 32 bits at an Int position (own rule id; never combined with shapes / second faults)
+                // an integer literal beyond 32 bits at an Int position (rule 5.6.1 since fix e3584a3; extra weight beside its
+                // turn among `MUTATIONS`, where it is also combined with shapes / second faults)
                 let mut mc = mutate::MCtx { rng: &mut rng, sch: &sch, doc: &doc, sites: &sites, only_def: None };
                 if let Some(m) = mc.int_literal_outside_32_bit_range() {
                     cases.push(Case { sdl: sdl.clone(), text: render(&m.doc, &mut rng), labels: vec![m.label], origin: "mutant".into(), features: vec![], raw_schema: false });
